@@ -11,8 +11,8 @@ CLAIMED = {
    "Liveness is only demanded after stabilisation and only under the measured preconditions listed above; the fast-finalization demand is restricted to the lockstep configuration because with skewed stakes or jitter a 60% coalition can legitimately complete the two-round path first (DESIGN §7 C02). N <= 7.",
    "DESIGN.md §7 C02"),
  "C05": ("exploration",
-   "Cluster monitor: in seeded executions with faults, partitions and <20%-stake Byzantine equivocating voters/leaders (several blocks per slot, blocks before parents, delayed certificates), every vote each correct node broadcasts is replayed in broadcast order against the voting rules: never a slashable combination with its own earlier votes, finalize only after notarizing and only for a block with a notarization certificate, fallback votes only after an initial vote and only once the stake they require had been voted anywhere, notar only for a block whose parent is the block notarized in the preceding slot or, in a window's first slot, a certified skip-connected parent.",
-   "Conditions that depend on what had reached the node (safe-to-notar/skip held, parent announced ready) are checked in their necessary form against everything on the wire by then: sound, weaker than per-node event causality (the single-node adversarial world of the design was not built).",
+   "Cluster monitor: in seeded executions with faults, partitions and <20%-stake Byzantine equivocating voters/leaders (several blocks per slot, blocks before parents, delayed certificates), every vote each correct node broadcasts is replayed in broadcast order against the voting rules: never a slashable combination with its own earlier votes, finalize only after notarizing and only for a block with a notarization certificate, fallback votes only after an initial vote and only once the stake they require had been voted anywhere, notar only for a block whose parent is the block notarized in the preceding slot or, in a window's first slot, a certified skip-connected parent. Solo-node world: one real node in a fully scripted adversarial environment (all other validators are puppets; several blocks per slot, children before parents, drawn arrival times of votes and certificates), where the oracle knows exactly what had reached the node at each instant and checks every clause in its per-node causal form.",
+   "In the cluster world, conditions that depend on what had reached the node (safe-to-notar/skip held, parent announced ready) are checked in their necessary form against everything on the wire by then (sound, weaker); the exact per-node form is checked only in the solo-node world, whose scripted environments are cut at the instant they leave the <20% premise (pool safety assertion) and ignore slots beyond the scripted horizon.",
    "DESIGN.md §7 C05, §15"),
  "C09": ("exploration",
    "Forged votes and certificates (chains of 1-3 structured mutations of valid messages, signer subsets just below/at/above the thresholds, mixed certificates with a signer in both halves) are offered on the wire to ValidatedVote/ValidatedCert::try_new and compared with an independent verdict (signature bytes equal the honest signature/aggregation of exactly the named signers over exactly this kind/slot/hash; bitmask length; distinct stake vs threshold, ignoring the declared stake); the cluster variant injects the same forgeries at real nodes and validates every certificate a correct node re-broadcasts.",
